@@ -8,6 +8,7 @@ import (
 	"net"
 	"os"
 	"runtime/debug"
+	"sort"
 	"strings"
 	"sync"
 	"sync/atomic"
@@ -422,6 +423,23 @@ func runScenario(sc *Scenario) (res *result) {
 					q.MaxFrame, q.InitWin, q.MaxStreams, o.maxFrame, o.initWin, wantStreams), len(res.log)})
 			}
 		}
+		if res.qobs != nil && res.idx < 0 {
+			// the client holds no stream any more: the peer must not count one as open either
+			// (END_STREAM both ways, or RST_STREAM from either side)
+			var leaked []uint32
+			for sid, st := range o.streams {
+				if !st.closed() {
+					leaked = append(leaked, sid)
+				}
+			}
+			if len(leaked) > 0 {
+				sort.Slice(leaked, func(i, j int) bool { return leaked[i] < leaked[j] })
+				st := o.streams[leaked[0]]
+				res.endClasses = append(res.endClasses, endViolation{clsStreamLeaked, fmt.Sprintf(
+					"at quiescence the client has forgotten every stream but the peer still counts %v as open (stream %d: client END_STREAM=%v, peer END_STREAM=%v, no RST_STREAM either way)",
+					leaked, leaked[0], st.cliClosed, st.peerEnded), len(res.log)})
+			}
+		}
 		if len(o.pending) > 0 {
 			res.endClasses = append(res.endClasses, endViolation{clsSettingsNotAcked, fmt.Sprintf(
 				"%d SETTINGS frames unacknowledged after the final PING ack", len(o.pending)), len(res.log)})
@@ -552,6 +570,8 @@ func shapeOf(res *result, cls int, at int) string {
 			return fmt.Sprintf("race-open-vs-ack,strict=%v", sc.Strict)
 		}
 		return fmt.Sprintf("no-race,strict=%v,peer-lowered-maxstreams=%v", sc.Strict, o.loweredStreams)
+	case clsStreamLeaked:
+		return "fp=" + sc.FP.Kind
 	case clsLimitsDiverge:
 		return fmt.Sprintf("settings-frames-acked=%d", o.ackEvents)
 	case clsStreamStalled:
